@@ -53,13 +53,17 @@ def rfind (c : Nat) : Str → Option Nat
 def maxLen : Nat := 30
 def dots : Str := [46, 46, 46]
 
-/-- the two clipping steps of `make_link` (`parts[0] + "/" + parts[1][:8]…`, then `[:max_len]`) -/
-def clip (url : Str) (protoLen : Nat) : Str :=
-  let url1 := match splitOnC 47 (url.drop protoLen) with
-    | p0 :: p1 :: _ => url.take protoLen ++ p0 ++ [47] ++ firstPiece 46 (firstPiece 63 (p1.take 8))
-    | _ => url
-  -- `len(url) > max_len * 1.5`
-  if 2 * url1.length > 3 * maxLen then url1.take maxLen else url1
+/-- first clipping step of `make_link`: `url[:proto_len] + parts[0] + "/" + parts[1][:8].split("?")[0].split(".")[0]`
+when the rest of the URL has a `/` -/
+def clip1 (url : Str) (protoLen : Nat) : Str :=
+  match splitOnC 47 (url.drop protoLen) with
+  | p0 :: p1 :: _ => url.take protoLen ++ p0 ++ [47] ++ firstPiece 46 (firstPiece 63 (p1.take 8))
+  | _ => url
+
+/-- second step: `if len(url) > max_len * 1.5: url = url[:max_len]` -/
+def clip2 (u : Str) : Str := if 2 * u.length > 3 * maxLen then u.take maxLen else u
+
+def clip (url : Str) (protoLen : Nat) : Str := clip2 (clip1 url protoLen)
 
 /-- `amp = url.rfind("&"); if amp != -1 and ";" not in url[amp:]: url = url[:amp]` (the D8 fix) -/
 def dropCutEntity (url : Str) : Str :=
@@ -90,18 +94,23 @@ structure Link where
   label : Str
   deriving Repr, DecidableEq
 
+/-- `proto` is truthy (group 2 took part in the match) -/
+def hasProto (m : M) : Bool := match m.proto with | some p => !p.isEmpty | none => false
+
+/-- `proto_len = len(proto) + 1 + len(m.group(3) or "")`, or 0 -/
+def protoLen (m : M) : Nat :=
+  if hasProto m then (m.proto.getD []).length + 1 + (m.slashes.getD []).length else 0
+
 /-- `make_link`: `none` = the URL text is left alone -/
 def linkParts (o : Opts) (m : M) (url : Str) : Option Link :=
-  let hasProto := match m.proto with | some p => !p.isEmpty | none => false
-  if o.requireProtocol && !hasProto then none
-  else if hasProto && !(o.permitted.contains (m.proto.getD [])) then none
+  if o.requireProtocol && !hasProto m then none
+  else if hasProto m && !(o.permitted.contains (m.proto.getD [])) then none
   else
-    let href := if hasProto then url else httpPrefix ++ url
+    let href := if hasProto m then url else httpPrefix ++ url
     let params := paramsFor o.extra href
     if o.shorten && url.length > maxLen then
-      let protoLen := if hasProto then (m.proto.getD []).length + 1 + (m.slashes.getD []).length else 0
-      let (lab, title) := shortenLabel url protoLen
-      some ⟨href, if title then params ++ titleOpen ++ href ++ [34] else params, lab⟩
+      let sl := shortenLabel url (protoLen m)
+      some ⟨href, if sl.2 then params ++ titleOpen ++ href ++ [34] else params, sl.1⟩
     else some ⟨href, params, url⟩
 
 def aOpen : Str := [60, 97, 32, 104, 114, 101, 102, 61, 34]   -- `<a href="`
